@@ -152,6 +152,9 @@ def apply_edits(content: str, lang: str, edits: list[dict]) -> tuple[str, list[d
         elif kind == "reindent":
             lines = [(" " * (len(l) - len(l.lstrip(" ")))) + l if l.strip() else l for l in lines]
             out.append({"kind": kind, "at": 0})
+        elif kind == "narrow":
+            lines = [(" " * ((len(l) - len(l.lstrip(" "))) // 2)) + l.lstrip(" ") if l.strip() else l for l in lines]
+            out.append({"kind": kind, "at": 0})
         elif kind == "crlf":
             eol = "\r\n"
             out.append({"kind": kind, "at": 0})
